@@ -58,7 +58,8 @@ def gen_case(g):
     dvars = []
     for _ in range(nvars):
         idx = rng.randrange(len(names))
-        form = rng.choice(["name", "index", "poly", "indeterminant", "variable"])
+        form = rng.choice(["name", "index", "poly", "indeterminant", "variable", "variable_retained",
+                           "aligned"])
         dvars.append({"form": form, "name": names[idx], "index": idx})
     if fn == "derivative" and rng.random() < 0.12:
         # high order in one call: the product of the exponents brought down passes 2**32
@@ -99,10 +100,19 @@ def designate(numpoly, dvar, poly=None):
         return dvar["index"]
     if dvar["form"] == "indeterminant" and poly is not None:
         return poly.indeterminants[dvar["index"]]
-    if dvar["form"] == "variable":
+    if dvar["form"] in ("variable", "variable_retained"):
         number = M.numsuffix(dvar["name"])
         if dvar["name"] == f"q{number}" and number < 12:
+            if dvar["form"] == "variable_retained":
+                # a designator that was created under retain_coefficients=True (it carries
+                # all-zero terms) and is used under whatever setting the case runs in
+                with numpoly.global_options(retain_coefficients=True):
+                    return numpoly.variable(number + 2, asarray=True)[number]
             return numpoly.variable(number + 1, asarray=True)[number]
+    if dvar["form"] == "aligned":
+        # ... or one that went through an alignment with other indeterminates
+        other = numpoly.symbols("q15") + numpoly.symbols("q14") ** 2
+        return numpoly.align_exponents(numpoly.symbols(dvar["name"]), other)[0]
     return numpoly.symbols(dvar["name"])
 
 
